@@ -790,3 +790,93 @@ pub fn c07_flush_fault_script(r: &mut Rng, _index: u64, _tier: Tier) -> (CaseCfg
     }
     (cfg, s)
 }
+
+/// C07: an unacknowledged packet meets, on a resumed connection, a Maximum Packet Size below its
+/// own length (it cannot be replayed there); a later connection has no such limit, and by then
+/// the identifier counter has come round to the packet's identifier. The broker has seen the
+/// packet once, so the identifier is still taken.
+pub fn c07_smaller_limit_script(r: &mut Rng, _index: u64, _tier: Tier) -> (CaseCfg, Vec<Step>) {
+    let cfg = CaseCfg { rx: 128, tx: 1024, keepalive: 0, ..CaseCfg::default() };
+    let first = *r.pick(&[1u16, 7, 300, 65534, 65535]);
+    let mut s = vec![Step::SetNextPid(first), connect_with(SpMode::Force(false), AckMode::Hold, vec![])];
+    let big = r.chance(2, 3);
+    s.push(match r.below(3) {
+        0 => Step::Subscribe(SubSpec { filters: vec![FilterSpec { filter: "long/filter/of/some/length/#".into(), max_qos: 1, no_local: false, rap: false, rh: 0 }], props: vec![], cancel_at: None }),
+        1 => pubq(2, "big", 1, if big { 40 } else { 2 }),
+        _ => pubq(1, "big", 1, if big { 40 } else { 2 }),
+    });
+    s.push(poll0());
+    s.push(Step::DropConn);
+    // a resumed connection whose broker takes at most 20 bytes per packet
+    s.push(connect_with(SpMode::Force(true), AckMode::Hold, vec![Prop::MaximumPacketSize(*r.pick(&[12u32, 20, 24]))]));
+    for _ in 0..r.range(1, 3) {
+        s.push(poll0());
+    }
+    if r.chance(1, 2) {
+        s.push(pubq(1, "s", 2, 1));
+        s.push(poll0());
+    }
+    s.push(Step::DropConn);
+    // the counter has come round
+    s.push(Step::SetNextPid(first));
+    s.push(connect_with(SpMode::Force(true), AckMode::Hold, vec![]));
+    s.push(poll0());
+    for k in 0..r.range(1, 3) {
+        s.push(match r.below(3) {
+            0 => pubq(1, "again", 10 + k as u32, 2),
+            1 => Step::Subscribe(SubSpec { filters: vec![FilterSpec { filter: "again/#".into(), max_qos: 0, no_local: false, rap: false, rh: 0 }], props: vec![], cancel_at: None }),
+            _ => pubq(2, "again", 20 + k as u32, 2),
+        });
+    }
+    s.push(poll0());
+    s.push(Step::Broker(BrokerAct::Release { n: 99, order: Order::Fifo }));
+    for _ in 0..8 {
+        s.push(poll0());
+    }
+    (cfg, s)
+}
+
+/// Shared by several checks: the application gives up on a disconnect() while the DISCONNECT is
+/// pending on the transport (nothing or only a part of it accepted), lets go of the handle
+/// without another call, and resumes the session on a new connection. Whatever the old handle
+/// had begun stays with the old transport; the new connection replays what is owed.
+pub fn disconnect_given_up_script(r: &mut Rng, _index: u64, _tier: Tier) -> (CaseCfg, Vec<Step>) {
+    let cfg = CaseCfg { rx: 128, tx: 1024, keepalive: 0, ..CaseCfg::default() };
+    let mut s = vec![];
+    let policy = IoPolicy { write: *r.pick(&[Chunk::One, Chunk::All, Chunk::Fixed(3)]), pend_write: Pend::Always, pend_flush: Pend::Always, ..IoPolicy::default() };
+    s.push(Step::Connect(ConnectSpec { policy, faults: vec![], connack: ConnackSpec::Normal { sp: SpMode::Force(false), reason: 0, props: vec![] }, broker: BrokerPolicy { acks: AckMode::Hold, ping: AckMode::Immediate, fail_pct: 0, longform_pct: 0 }, cancel_at: None }));
+    let n = r.range(1, 3);
+    for k in 0..n {
+        s.push(match r.below(5) {
+            0 => Step::Subscribe(SubSpec { filters: vec![FilterSpec { filter: "g/#".into(), max_qos: 1, no_local: false, rap: false, rh: 0 }], props: vec![], cancel_at: None }),
+            1 | 2 => pubq(2, "g", k as u32, 4),
+            _ => pubq(1, "g", k as u32, 4),
+        });
+    }
+    // some of the QoS 2 exchanges get as far as PUBREL
+    if r.chance(1, 2) {
+        s.push(Step::Broker(BrokerAct::Release { n: 1, order: Order::Fifo }));
+        s.push(poll0());
+        s.push(poll0());
+    }
+    let props = match r.below(3) {
+        0 => Some(vec![Prop::ReasonString("going".into())]),
+        _ => None,
+    };
+    s.push(Step::Disconnect(DiscSpec { reason: *r.pick(&[None, Some(0u8), Some(4)]), props, cancel_at: Some(r.range(1, 4)) }));
+    s.push(match r.below(3) {
+        0 => Step::ForgetConn,
+        1 => Step::IntoInner,
+        _ => Step::DropConn,
+    });
+    s.push(connect_with(SpMode::Force(true), AckMode::Hold, vec![]));
+    for _ in 0..n + 3 {
+        s.push(poll0());
+    }
+    s.push(pubq(1, "after", 9, 2));
+    s.push(Step::Broker(BrokerAct::Release { n: 99, order: Order::Fifo }));
+    for _ in 0..2 * n + 3 {
+        s.push(poll0());
+    }
+    (cfg, s)
+}
